@@ -19,7 +19,7 @@ use vecdb::{
 
 use crate::{
     common::{Fail, RunResult, Scratch, Stats, Violation, catch, fill, harness, us},
-    ctl::{Ctl, CtlConfig, Strategy, Verdict},
+    ctl::{Ctl, CtlConfig, CyclePlan, LockEdge, PausePoint, Strategy, Verdict},
     disk::{Disk, Ev},
     framework::{Check, Tier, run_seed},
     hooks::{CTL, HUB},
@@ -233,13 +233,28 @@ pub struct Cfg {
     /// C11 only: every thread works on thread 0's regions.
     pub shared_regions: bool,
     pub trace: bool,
+    /// Directed confirmation of a predicted lock-order cycle (set by `run_case` for its attempts,
+    /// present in a replay file when the attempt itself is the failing case).
+    pub plan: Option<CyclePlan>,
+    /// more candidates and attempts per run (thorough tier)
+    pub thorough_directed: bool,
 }
 
 impl Cfg {
     pub fn to_json(&self) -> Value {
-        json!({"property": self.property, "seed": self.seed, "strategy": self.strategy, "early_fire": self.early_fire,
+        let mut v = json!({"property": self.property, "seed": self.seed, "strategy": self.strategy, "early_fire": self.early_fire,
                "nthreads": self.nthreads, "vec_kinds": self.vec_kinds, "initial_min_len": self.initial_min_len,
-               "crossover": self.crossover, "record_io": self.record_io, "prefix": self.prefix, "shared_regions": self.shared_regions})
+               "crossover": self.crossover, "record_io": self.record_io, "prefix": self.prefix, "shared_regions": self.shared_regions});
+        if self.thorough_directed {
+            v["thorough_directed"] = json!(true);
+        }
+        if let Some(p) = &self.plan {
+            v["plan"] = json!({
+                "order": p.order,
+                "points": p.points.iter().map(|x| json!({"tid": x.tid, "sig": x.sig.to_string(), "nth": x.nth, "interposer": x.interposer})).collect::<Vec<_>>(),
+            });
+        }
+        v
     }
     pub fn from_json(v: &Value) -> Cfg {
         Cfg {
@@ -255,10 +270,29 @@ impl Cfg {
             prefix: us(v, "prefix"),
             shared_regions: v["shared_regions"].as_bool().unwrap_or(false),
             trace: std::env::var("VERIF_TRACE").is_ok(),
+            thorough_directed: v["thorough_directed"].as_bool().unwrap_or(false),
+            plan: v.get("plan").filter(|p| p.is_object()).map(|p| CyclePlan {
+                order: p["order"].as_array().map(|a| a.iter().filter_map(|x| x.as_u64().map(|y| y as usize)).collect()).unwrap_or_default(),
+                points: p["points"]
+                    .as_array()
+                    .map(|a| {
+                        a.iter()
+                            .map(|x| PausePoint {
+                                tid: us(x, "tid"),
+                                sig: x["sig"].as_str().and_then(|s| s.parse().ok()).unwrap_or(0),
+                                nth: us(x, "nth") as u32,
+                                interposer: x["interposer"].as_bool().unwrap_or(false),
+                            })
+                            .collect()
+                    })
+                    .unwrap_or_default(),
+            }),
         }
     }
     fn strategy(&self) -> Strategy {
-        match self.strategy % 6 {
+        match self.strategy % 8 {
+            6 => Strategy::HoldBack(100),
+            7 => Strategy::HoldBack(90),
             0 => Strategy::Uniform,
             1 => Strategy::Sticky(90),
             2 => Strategy::Sticky(60),
@@ -574,8 +608,14 @@ impl ThreadCtx {
                 if len == 0 {
                     return Ok(0);
                 }
-                let from = a % len;
-                let to = (from + 1 + b % 64).min(len);
+                // a third of the ranges end at the observed length: the newest elements are where a
+                // length published ahead of the data / page index shows
+                let (from, to) = if a % 3 == 0 {
+                    (len - (1 + b % 64).min(len), len)
+                } else {
+                    let from = a % len;
+                    (from, (from + 1 + b % 64).min(len))
+                };
                 let check = |i: usize, val: u64| -> Result<(), String> {
                     if val == g(vid, i) { Ok(()) } else { Err(format!("index {i} (observed len {len}) read {val:#x}, the writer pushed {:#x}", g(vid, i))) }
                 };
@@ -694,19 +734,80 @@ pub struct Outcome {
     pub trace: Vec<String>,
 }
 
-/// Executes one W5 case.
+/// Executes one W5 case. For C11 a run that finished is followed by the directed confirmation of
+/// the lock-order cycles it predicts (see `lockgraph`): the same program again, with the cycle's
+/// threads held at the nested acquisitions that form the cycle.
 pub fn run_case(cfg: &Cfg, prog: &Program, stats: &mut Stats) -> RunResult<()> {
+    let mut edges: Vec<LockEdge> = Vec::new();
+    run_once(cfg, prog, stats, &mut edges)?;
+    if cfg.property != "C11" || cfg.plan.is_some() || std::env::var("VERIF_NO_DIRECTED").is_ok() {
+        return Ok(());
+    }
+    let cycles = crate::lockgraph::find_cycles(&edges, 2);
+    if cfg.trace {
+        println!("nested acquisitions observed: {}; cycles predicted: {}", edges.iter().filter(|e| !e.held.is_empty()).count(), cycles.len());
+        for c in &cycles {
+            println!("  cycle {} points {:?}", c.shape, c.points);
+        }
+    }
+    if cycles.is_empty() {
+        return Ok(());
+    }
+    stats.add("probe.lock_order_cycles_predicted", cycles.len() as u64);
+    let mut rng = Rng::stream(cfg.seed, 0xD1EC7);
+    let (max_cycles, attempts) = if cfg.thorough_directed { (6, 8) } else { (3, 4) };
+    // a seeded sample of the candidates, distinct shapes first
+    let mut order: Vec<usize> = (0..cycles.len()).collect();
+    for i in (1..order.len()).rev() {
+        order.swap(i, rng.below(i + 1));
+    }
+    let mut shapes_done: std::collections::BTreeSet<&str> = std::collections::BTreeSet::new();
+    order.sort_by_key(|i| !shapes_done.insert(cycles[*i].shape.as_str()));
+    for ci in order.into_iter().take(max_cycles) {
+        let cyc = &cycles[ci];
+        stats.bump(&format!("cycle_shape.{}", cyc.shape));
+        for attempt in 0..attempts {
+            // approach: even attempts run the threads one after the other in a random priority
+            // order, odd attempts interleave them at random; both hold each at its pause point
+            let mut tids: Vec<usize> = cyc.points.iter().map(|p| p.tid).collect();
+            for i in (1..tids.len()).rev() {
+                tids.swap(i, rng.below(i + 1));
+            }
+            let mut c2 = cfg.clone();
+            c2.seed = mix(cfg.seed, 0xA77E + attempt as u64 + 16 * ci as u64);
+            c2.strategy = if attempt % 2 == 0 { 0 } else { *rng.pick(&[0u8, 2, 5]) };
+            c2.plan = Some(CyclePlan { points: cyc.points.clone(), order: if attempt % 2 == 0 { tids } else { Vec::new() } });
+            stats.bump("fault.directed_cycle_attempts");
+            let mut e2 = Vec::new();
+            let mut sub = Stats::default();
+            let r = run_once(&c2, prog, &mut sub, &mut e2);
+            stats.add("fault.directed_all_threads_in_place", sub.get("sched.plan_fired"));
+            stats.add("fault.directed_attempt_abandoned", sub.get("sched.plan_abandoned"));
+            stats.add("sched.points", sub.get("sched.points"));
+            if let Err(Fail::Violation(mut v)) = r {
+                v.detail = format!("{} [directed confirmation of predicted cycle {}; plan {}]", v.detail, cyc.shape, c2.to_json()["plan"]);
+                return Err(Fail::Violation(v));
+            }
+            if let Err(e) = r {
+                return Err(e);
+            }
+        }
+    }
+    Ok(())
+}
+
+fn run_once(cfg: &Cfg, prog: &Program, stats: &mut Stats, edges: &mut Vec<LockEdge>) -> RunResult<()> {
     let scratch = Scratch::new("w5");
     let dir = scratch.sub("db");
     HUB.reset();
     rawdb::verif::set_knob(rawdb::verif::KNOB_MMAP_CROSSOVER_BYTES, cfg.crossover);
-    let result = run_case_inner(cfg, prog, stats, &dir);
+    let result = run_case_inner(cfg, prog, stats, &dir, edges);
     rawdb::verif::set_knob(rawdb::verif::KNOB_MMAP_CROSSOVER_BYTES, 1 << 30);
     HUB.reset();
     result
 }
 
-fn run_case_inner(cfg: &Cfg, prog: &Program, stats: &mut Stats, dir: &std::path::Path) -> RunResult<()> {
+fn run_case_inner(cfg: &Cfg, prog: &Program, stats: &mut Stats, dir: &std::path::Path, edges: &mut Vec<LockEdge>) -> RunResult<()> {
     // ---- preparation (uncontrolled, single thread)
     let w1cfg = w1::Cfg {
         property: cfg.property.clone(),
@@ -825,7 +926,7 @@ fn run_case_inner(cfg: &Cfg, prog: &Program, stats: &mut Stats, dir: &std::path:
     // ---- controlled episode
     let ctl: &'static Ctl = &CTL;
     ctl.begin(
-        CtlConfig { seed: cfg.seed, strategy: cfg.strategy(), early_fire: cfg.early_fire, max_steps: 60_000, replay: None },
+        CtlConfig { seed: cfg.seed, strategy: cfg.strategy(), early_fire: cfg.early_fire, max_steps: 60_000, replay: None, plan: cfg.plan.clone() },
         cfg.trace,
     );
     let mut handles = Vec::new();
@@ -844,7 +945,10 @@ fn run_case_inner(cfg: &Cfg, prog: &Program, stats: &mut Stats, dir: &std::path:
             results.lock().unwrap()[t] = Some(boxed);
         }));
     }
-    let (verdict, cstats, trace) = ctl.run();
+    let (verdict, mut cstats, trace) = ctl.run();
+    *edges = std::mem::take(&mut cstats.edges);
+    stats.add("sched.plan_fired", cstats.plan_fired as u64);
+    stats.add("sched.plan_abandoned", cstats.plan_abandoned as u64);
     stats.add("sched.points", cstats.steps as u64);
     stats.add("sched.context_switches", cstats.switches as u64);
     stats.add("sched.blocked_arrivals", cstats.blocked_arrivals as u64);
@@ -852,6 +956,7 @@ fn run_case_inner(cfg: &Cfg, prog: &Program, stats: &mut Stats, dir: &std::path:
     stats.add("fault.timer_fired_at_deadline", cstats.timer_fired_deadline as u64);
     stats.add("fault.timer_fired_early", cstats.timer_fired_early as u64);
     stats.add("fault.preemptions_after_pause_point", cstats.preempt_after_pause as u64);
+    stats.add("fault.nested_lock_arrivals_held_back", cstats.held_back as u64);
     for (k, v) in &cstats.pauses_hit {
         stats.add(&format!("pause.{k}"), *v as u64);
     }
@@ -1007,7 +1112,8 @@ fn gen_region_op(rng: &mut Rng, tag: &mut u64, nthreads: usize, t: usize) -> TOp
         14 => if rng.chance(1, 3) { TOp::RetainOthers } else { TOp::Create { r: 2 } },
         _ => {
             let _ = t;
-            TOp::Append { r, len: 300_000, tag: *tag }
+            // mostly a growth that doubles the file; sometimes one that needs more than double
+            TOp::Append { r, len: if rng.chance(1, 5) { 2_500_000 } else { 300_000 }, tag: *tag }
         }
     }
 }
@@ -1029,7 +1135,7 @@ impl W5Check {
         let mut cfg = Cfg {
             property: self.id.to_string(),
             seed: rs,
-            strategy: rng.below(6) as u8,
+            strategy: rng.below(8) as u8,
             early_fire: rng.chance(1, 3),
             nthreads,
             vec_kinds: Vec::new(),
@@ -1039,6 +1145,8 @@ impl W5Check {
             prefix: *rng.pick(&[0usize, 5, 2040, 2047, 2048]),
             shared_regions: false,
             trace: false,
+            plan: None,
+            thorough_directed: self.id == "C11" && tier == Tier::Thorough,
         };
         let mut ops: Vec<Value> = Vec::new();
         for p in gen_prep(&mut rng) {
@@ -1252,10 +1360,29 @@ impl W5Check {
                         threads[2].push(TOp::FlushRegion { r: 0 });
                     }
                     1 => {
-                        threads[0].push(TOp::Append { r: 0, len: 10, tag: tag.wrapping_add(2) });
-                        threads[0].push(TOp::FlushRegion { r: 0 });
-                        threads[1].push(TOp::Compact);
-                        threads[2].push(TOp::Append { r: rng.below(2), len: 300_000, tag: tag.wrapping_add(4) });
+                        // single-region flush (meta, file) vs compaction (file, then every region's meta in
+                        // table order) vs file growth (queued file writer). The flusher's region sits late in
+                        // the region table so that compaction's walk leaves a window; each role on any thread.
+                        let rot = rng.below(3);
+                        let (fl, co, gr) = (rot, (rot + 1) % 3, (rot + 2) % 3);
+                        let fr = rng.below(2);
+                        if rng.chance(1, 2) {
+                            threads[fl].push(TOp::Append { r: fr, len: *rng.pick(&[1usize, 10, 4096]), tag: tag.wrapping_add(2) });
+                        }
+                        threads[fl].push(TOp::FlushRegion { r: fr });
+                        if rng.chance(1, 2) {
+                            threads[fl].push(TOp::FlushRegion { r: 1 - fr });
+                        }
+                        if rng.chance(1, 2) {
+                            threads[co].push(TOp::Compact);
+                        } else {
+                            threads[co].push(TOp::BgCompact);
+                            threads[co].push(TOp::SyncBg);
+                        }
+                        threads[gr].push(TOp::Append { r: rng.below(2), len: *rng.pick(&[9000usize, 300_000]), tag: tag.wrapping_add(4) });
+                        if rng.chance(1, 2) {
+                            threads[gr].push(TOp::Append { r: rng.below(2), len: 300_000, tag: tag.wrapping_add(6) });
+                        }
                     }
                     2 if rng.chance(1, 2) => {
                         // a full region growing into the promoted hole right behind it, vs compaction, vs file growth;
